@@ -211,3 +211,75 @@ def operand_write_violations(I, epoch, operands):
                 continue
             bad.append(f"write to operand field {cls}.{field} at {site[0]}:{site[2]} in {site[1]}")
     return bad
+
+
+# ---------------------------------------------------------------- log-domain rule (numeric range of log-determinants)
+_PROD_CALLS = ("prod", "cumprod", "det", "nanprod")
+LD_SYNTH = '''
+def bad(A):
+    d = A.diagonal(axis1=1, axis2=2)
+    p = jnp.prod(d, axis=1)
+    return jnp.log(p)
+def good(A):
+    d = A.diagonal(axis1=1, axis2=2)
+    return jnp.sum(jnp.log(d), axis=1)
+'''
+
+
+def _is_call_to(n, names):
+    import ast
+    return isinstance(n, ast.Call) and ((isinstance(n.func, ast.Attribute) and n.func.attr in names) or (isinstance(n.func, ast.Name) and n.func.id in names))
+
+
+def _logdomain_violations(fn, relpath, qual):
+    """log(...) of a product / determinant over a whole dimension (directly, or through a local name assigned from one)"""
+    import ast
+    tainted = {}
+    for n in ast.walk(fn):
+        if isinstance(n, ast.Assign) and len(n.targets) == 1 and isinstance(n.targets[0], ast.Name):
+            if any(_is_call_to(m, _PROD_CALLS) for m in ast.walk(n.value)):
+                tainted[n.targets[0].id] = n.lineno
+    out, sites = [], 0
+    for n in ast.walk(fn):
+        if not _is_call_to(n, ("log", "log2", "log10", "log1p")) or not n.args:
+            continue
+        sites += 1
+        arg = n.args[0]
+        hit = next((m for m in ast.walk(arg) if _is_call_to(m, _PROD_CALLS)), None)
+        name = next((m.id for m in ast.walk(arg) if isinstance(m, ast.Name) and m.id in tainted), None)
+        if hit is not None or name is not None:
+            what = ast.unparse(hit)[:80] if hit is not None else f"{name} (assigned from a product at line {tainted[name]})"
+            out.append(f"{relpath}:{n.lineno} in {qual(n.lineno)}: `{ast.unparse(n)[:100]}` takes the logarithm of the product `{what}`: the product of D entries "
+                       "leaves the float64 range (|ln det| > 708) although the log-determinant is representable; accumulate `sum(log(.))` / use slogdet")
+    return out, sites
+
+
+def logdomain_ob(prog, group):
+    """log-determinants (and every other log of a D-fold product) are accumulated in the log domain"""
+    import ast
+    from ..core import Ob, Refuted
+    from ..nf import Undecided
+
+    def run():
+        t = ast.parse(LD_SYNTH)
+        v, _ = _logdomain_violations(t.body[0], "synthetic", lambda l: "bad")
+        w, _ = _logdomain_violations(t.body[1], "synthetic", lambda l: "good")
+        if len(v) != 1 or w:
+            raise Undecided("log-domain rule: synthetic positive / negative example mismatch")
+        bad, sites = [], 0
+        for mod, tree in prog.modules.items():
+            for fn in ast.walk(tree):
+                if isinstance(fn, (ast.FunctionDef, ast.Lambda)):
+                    b, k = _logdomain_violations(fn, prog.relpath(mod), lambda l, mod=mod: prog.qualname_at(mod, l))
+                    if isinstance(fn, ast.FunctionDef):
+                        sites += k
+                    bad += b
+        bad = sorted(set(bad))
+        if sites < 20:
+            raise Undecided(f"only {sites} logarithm call sites found in the library (floor 20)")
+        if bad:
+            raise Refuted("; ".join(bad[:2]), bad[0].split(":")[0] + "::" + bad[0].split(" in ")[1].split(":")[0], bad)
+        return [], dict(sites=sites)
+    return Ob("logdomain/no-log-of-product", run,
+              "no logarithm is taken of a product / determinant over a whole dimension (log-determinants are accumulated in the log domain, so they stay finite for every D)",
+              "gaussian_toolbox/utils/linalg.py::invert_diagonal", group=group)
